@@ -106,8 +106,13 @@ class FatIO(io.RawIOBase):
 
         if self.__cindex > prev_index:
             fp = self.fs.get_cluster_chain(self.__cpos)
-            for _ in range(0, self.__cindex - prev_index + 1):
-                self.__cpos = next(fp)
+            try:
+                for _ in range(0, self.__cindex - prev_index + 1):
+                    self.__cpos = next(fp)
+            except StopIteration:
+                raise PyFATException("Cluster chain of file is shorter "
+                                     "than its size, cannot access file",
+                                     errno=errno.EIO)
 
         return self.__bpos
 
@@ -164,8 +169,10 @@ class FatIO(io.RawIOBase):
 
             chunks = b"".join(chunks)
             if len(chunks) != size:
-                raise RuntimeError("Read a different amount of data "
-                                   "than was requested.")
+                raise PyFATException("Read a different amount of data "
+                                     "than was requested, cluster chain or "
+                                     "device is shorter than the file size.",
+                                     errno=errno.EIO)
             return chunks
 
     def readinto(self, __buffer: bytearray) -> Optional[int]:
